@@ -83,6 +83,16 @@ func verifTc(phase string) {
 	}
 }
 
+// VerifDrainHeartbeat takes one pending heartbeat, if any (used by the recorder while it holds back the declaration of quiescence).
+func VerifDrainHeartbeat(re *RuntimeEnvironment) bool {
+	select {
+	case <-re.heartbeat:
+		return true
+	default:
+		return false
+	}
+}
+
 // VerifKeepAlive sends one heartbeat (used by the replay driver, which decides quiescence itself).
 func VerifKeepAlive(re *RuntimeEnvironment) {
 	select {
